@@ -189,7 +189,13 @@ def rule_output_memory(ctx):
     shared.check_initialize_row_carry_over(ctx, "a former output whose row is recycled as UNDECLARED/PLANNED loses its output state and hash: once nothing uses it any more it is no longer recognised as an orphaned output and stays on disk")
 
 
+def rule_cleanup_wiring(ctx):
+    """R-C07-8: what is queued for deletion is really removed."""
+    shared.check_cleanup_wired(ctx, "orphaned outputs are found and forgotten in the graph but stay on disk")
+
+
 RULES = [
+    Rule("R-C07-8", "queued paths are really removed", rule_cleanup_wiring, min_instances=4),
     Rule("R-C07-1", "cleanup sequence on the clean path", rule_sequence, min_instances=3),
     Rule("R-C07-2", "deletion loop shape and order", rule_delete_loop, min_instances=4),
     Rule("R-C07-3", "static-tree files pruned before the base deletion", rule_tree_files_first, min_instances=2),
@@ -200,6 +206,8 @@ RULES = [
 ]
 
 MUTANTS = [
+    Mutant("remover-removes-nothing", "finalize.py", in_function("_try_remove", replace_once("        remove()\n", "        pass\n")), ("R-C07-8",)),
+    Mutant("revert-keeps-output-rows", "finalize.py", in_function("revert_optional_steps", replace_once("            db.execute(UPDATE_OPTIONAL_TO_BE_DELETED)\n", "            pass\n")), ("R-C07-8",)),
     Mutant("revert-keeps-dynamic-edges", "finalize.py", in_function("revert_optional_steps", replace_once("        for i, label in rows:\n            Step(workflow, i, label).reset_for_rerun()\n", "")), ("R-C07-7",)),
     Mutant("revert-forgets-only-with-files", "finalize.py", in_function("revert_optional_steps", lambda s: s.replace("        rows = db.execute(\"SELECT i, label FROM optional_step\").fetchall()\n        for i, label in rows:\n            Step(workflow, i, label).reset_for_rerun()\n", "", 1).replace("            db.execute(UPDATE_OPTIONAL_TO_BE_DELETED)\n", "            db.execute(UPDATE_OPTIONAL_TO_BE_DELETED)\n            rows = db.execute(\"SELECT i, label FROM optional_step\").fetchall()\n            for i, label in rows:\n                Step(workflow, i, label).reset_for_rerun()\n", 1) if "Step(workflow, i, label).reset_for_rerun()" in s else None), ("R-C07-7",)),
     Mutant("revert-forgets-non-pending-only", "finalize.py", in_function("revert_optional_steps", replace_once("SELECT i, label FROM optional_step\"", "SELECT i, label FROM optional_step WHERE state != 21\"")), ("R-C07-7",)),
